@@ -20,7 +20,7 @@ func init() {
 		RealParts:  []string{"Genome.duplicate with the gene / node / link / trait / MIMO-gene copy constructors", "NewPopulation (spawn)", "the mutators used to probe aliasing", "the epochs that produce the source genomes"},
 		StubParts:  []string{"fitness during the preparatory epochs", "reference innovation registry for the follow-up structural mutations"},
 		Assumes:    []string{"genetic equality is judged on traits, nodes (id, role, activation, trait), genes (endpoints, weight, innovation and mutation number, recurrence and enabled flag, trait) and modules; derived caches (link parameter copies, phenotype pointers) are not genetic state"},
-		ProbeNames: []string{"probe.source.disabled_gene", "probe.source.recurrent_gene", "probe.source.nil_trait", "probe.source.modular", "probe.mutated_copy", "probe.mutated_original", "probe.spawn"},
+		ProbeNames: []string{"probe.source.disabled_gene", "probe.source.recurrent_gene", "probe.source.nil_trait", "probe.descendants_of_copy_mutated", "probe.source.modular", "probe.mutated_copy", "probe.mutated_original", "probe.spawn"},
 	})
 }
 
@@ -345,6 +345,36 @@ func scenarioC06(c *RunCtx) {
 					side = "copy"
 				}
 				c.Fail("duplicate:aliasing", "%s applied to the %s changed the %s: %s\nbefore: %s\nafter:  %s", OpNames[op], map[bool]string{true: "copy", false: "source"}[mutCopy], side, FirstDiff(otherRec.Dump(true), now.Dump(true)), otherRec.Pretty(), now.Pretty())
+			}
+		}
+		// descendants of the copy: the copy is mated with another genome and the child is mutated; whatever that does to
+		// the copy's lineage, the source took no part in it and must not move (only when the source was not the side
+		// mutated above, so that its record is still the reference)
+		if mutCopy && len(env.Pool) >= 2 && t.Chance("descendants", 1, 3) {
+			poolLen := len(env.Pool)
+			ci := env.Adopt(cp, 1, 64)
+			bi := t.Draw("desc.mate", len(env.Pool))
+			if bi != ci && bi != a && env.Pool[bi] != src && (len(env.Pool[bi].ControlGenes) > 0) == modular && len(env.Pool[bi].Traits) == len(cp.Traits) {
+				mop := []int{OpMateMultipoint, OpMateMultipointAvg, OpMateSinglePoint}[t.Draw("desc.op", 3)]
+				r := env.Apply(mop, ci, bi, c.LibSoft)
+				c.Op("%s", r.Describe())
+				if r.Child != nil && r.Err == nil && len(r.Child.Genes) > 0 {
+					chi := env.Adopt(r.Child, 1, 64)
+					for i := t.Range("desc.mutations", 1, 4); i > 0; i-- {
+						op := []int{OpNodeTrait, OpRandomTrait, OpLinkTrait, OpLinkWeights, OpToggleEnable}[t.Draw("desc.mut", 5)]
+						r2 := env.Apply(op, chi, 0, c.LibSoft)
+						c.Op("%s", r2.Describe())
+					}
+					c.Count("probe.descendants_of_copy_mutated")
+					if now := Canon(src); now.Dump(true) != srcRec.Dump(true) {
+						c.Fail("duplicate:aliasing", "mutating a child of the copy (copy mated with another genome by %s) changed the source: %s\nbefore: %s\nafter:  %s", OpNames[mop], FirstDiff(srcRec.Dump(true), now.Dump(true)), srcRec.Pretty(), now.Pretty())
+					}
+				}
+			}
+			// the copy and its descendants leave the operand pool again (a child of a modular crossover is not a source the
+			// property speaks about: modular genomes are covered for duplication and expression only)
+			if len(env.Pool) > poolLen {
+				env.Pool, env.Fit = env.Pool[:poolLen], env.Fit[:poolLen]
 			}
 		}
 		h := srcRec.ShapeHash()
